@@ -3,6 +3,7 @@ package main
 // Symbolic values: every Go value is a tree of SMT leaf terms shaped by its type.
 
 import (
+	"hash/fnv"
 	"fmt"
 	"go/types"
 	"strings"
@@ -420,12 +421,22 @@ func opaqueVal(typ types.Type) *Val { return &Val{K: VOpaque, Typ: typ} }
 var typeIDs = map[string]int{}
 var typeIDTypes = map[int]types.Type{}
 
+// (a stable number derived from the type's name, not from the order in which types are met: the text of a unit's
+// obligations must not depend on which other units were verified before it)
 func typeID(t types.Type) int {
 	k := typeString(t)
 	if id, ok := typeIDs[k]; ok {
 		return id
 	}
-	id := len(typeIDs) + 1
+	h := fnv.New32a()
+	h.Write([]byte(k))
+	id := int(h.Sum32()%1000000000) + 1
+	for {
+		if _, taken := typeIDTypes[id]; !taken {
+			break
+		}
+		id++
+	}
 	typeIDs[k] = id
 	typeIDTypes[id] = t
 	return id
